@@ -19,22 +19,22 @@ import (
 // dropped between rounds, cancellation at chosen points).
 
 type batchCall struct {
-	Kind   string   // get put delete append increment
+	Kind   string // get put delete append increment
 	Row    string
 	Script []string // per attempt: ok fatal retry nsre dead-before dead-after abort; beyond the script: ok
 }
 
 type batchCase struct {
-	Seed     int64
-	Servers  int
-	Bounds   []string
-	Queue    int
-	Flush    time.Duration
-	Calls    []batchCall
-	Invalid  string // "" | mixed-tables | duplicate | non-batchable
+	Seed      int64
+	Servers   int
+	Bounds    []string
+	Queue     int
+	Flush     time.Duration
+	Calls     []batchCall
+	Invalid   string // "" | mixed-tables | duplicate | non-batchable
 	InvalidAt int
-	Trigger  string // "" | drop-table-on-nsre | cancel-before | cancel-waiting | cancel-backoff | cancel-call-waiting
-	Deadline time.Duration
+	Trigger   string // "" | drop-table-on-nsre | cancel-before | cancel-waiting | cancel-backoff | cancel-call-waiting
+	Deadline  time.Duration
 }
 
 func (b batchCase) String() string {
@@ -141,16 +141,16 @@ type batchAttempt struct {
 }
 
 type batchRun struct {
-	Case     batchCase
-	OpIDs    []string // per call of the (valid part of the) batch; "" for injected invalid entries
-	Calls    []hrpc.Call
-	Res      []hrpc.RPCResult
-	AllOK    bool
-	Returned bool
-	Events   []sim.Event
-	Attempts map[string][]*batchAttempt
-	Cluster  *sim.Cluster
-	Elapsed  time.Duration
+	Case        batchCase
+	OpIDs       []string // per call of the (valid part of the) batch; "" for injected invalid entries
+	Calls       []hrpc.Call
+	Res         []hrpc.RPCResult
+	AllOK       bool
+	Returned    bool
+	Events      []sim.Event
+	Attempts    map[string][]*batchAttempt
+	Cluster     *sim.Cluster
+	Elapsed     time.Duration
 	CancelledAt time.Duration
 }
 
